@@ -48,15 +48,20 @@ PROPS = {
         "rule": ("one evaluation = one history of 20-80 tape-drawn micro-steps (put-open / write / close, get-open / read, stat, walk, "
                  "delete, delete-all, copy between kinds, tar/zip round trip, hostile archive / plugin names) interleaved over a random "
                  "tree of real buckets and combinators (memory, disk, disk+symlink mode, prefix map incl. chained mappers, filter, union, "
-                 "overlay, strip), every step followed by model and containment invariants; non-trivial = at least 4 different operation "
-                 "kinds executed; distinct = distinct full trace hash"),
+                 "overlay, strip), every step followed by model and containment invariants; special steps: foreign archives, file-node paths, "
+                 "configuration directories, a cached module whose marker points outside its directory, and a free-running concurrent step "
+                 "(three goroutines put/get/delete on two paths of a memory bucket, one disk bucket or one disk bucket value per client while "
+                 "a fourth walks; history checked for linearizability with porcupine); disk roots are given absolutely or relative to the "
+                 "engine's own working directory, some contain a symbolic link to an outside file; non-trivial = at least 4 different "
+                 "operation kinds executed; distinct = distinct full trace hash"),
         "real": ["storagemem", "storageos (real directories on tmpfs, with and without symlink mode)", "storage.Map*/Filter*/Multi/Overlay/Strip buckets",
                  "storage.Copy", "storagearchive Tar/Untar/Zip/Unzip", "normalpath", "bufprotoplugin.ResponseWriter.WriteResponse"],
-        "stubbed": ["nothing is stubbed: the tape interleaves micro-steps of several logical clients; no goroutine scheduling is involved in this engine"],
+        "stubbed": ["nothing is stubbed: the tape interleaves micro-steps of several logical clients; goroutines run only in the concurrent step, "
+                    "freely (not scheduled by the simulator: its violations replay statistically)"],
         "assumptions": COMMON_ASSUMPTIONS + [
             "path universe is prefix-free (a file is never also a directory); otherwise disk and memory legitimately differ",
             "reads of an object with a non-atomic disk put in flight are not checked (documented as undefined)",
-            "concurrent-client linearizability of the memory bucket (porcupine) is not part of this engine: the wrapper serialises operations, so it would only re-test sequential behaviour",
+            "concurrent histories are short (3 clients x 7 operations, 2 paths) so that the linearizability check stays tractable; an inconclusive check is never reported",
         ],
         "probes_expected": {"quick": ["union-duplicate-detected", "copy-between-kinds", "archive-round-trip", "reader-completed"],
                             "thorough": ["union-duplicate-detected", "copy-between-kinds", "archive-round-trip", "reader-completed"]},
@@ -175,16 +180,19 @@ PROPS = {
                  "variant, junk non-module files, inter-module imports) whose last module is digested under 3-6 tape-chosen configurations "
                  "(backend memory / disk / tar round trip / zip round trip, walk permutation at every bucket, module name present or absent, "
                  "targeted or not, module listing order, injected get/read/walk errors) and compared with an independent implementation of the "
-                 "published b5 construction; then through the module cache (directory and tar layouts) under a key pinned to the reference "
-                 "digest; then after 2-4 stored-content mutations (flip, truncate, append, delete, rename, add) of module and non-module files "
+                 "published b5 construction (in some executions after the dependency graph, the direct dependencies or the file listing were "
+                 "asked for first; readers may serve short reads); six goroutines asking the same module objects at once; all modules as one "
+                 "v2 workspace loaded through bufworkspace (LICENSE / doc inheritance from the root); then through the module cache (directory "
+                 "and tar layouts) under a key pinned to the reference b5 and b4 digests; then after 2-4 stored-content mutations (flip, truncate, append, delete, rename, add) of module and non-module files "
                  "and a change inside a dependency; non-trivial = every run (each has >= 3 configurations); distinct = distinct trace hash"),
         "real": ["bufmodule digest code (b5) incl. module-file matcher and doc-file precedence", "bufmodule ModuleSetBuilder / ModuleDeps", "bufcas manifest / file set / digest",
-                 "storagemem", "storageos", "storagearchive", "bufmodulestore (as a backend)", "bufmodule.ModuleData digest verification"],
+                 "storagemem", "storageos", "storagearchive", "bufmodulestore (as a backend)", "bufmodule.ModuleData digest verification",
+                 "bufworkspace + buftarget (v2 workspace on one bucket)"],
         "stubbed": ["disk interposition: yielding wrapper with walk permutation and injected get/read/walk errors"],
         "assumptions": COMMON_ASSUMPTIONS + [
             "the reference is written from the published construction with crypto/sha3 from the Go standard library",
             "Stat errors are not injected: buf probes for doc files with Stat and, by API design, cannot tell a failed Stat from an absent file",
-            "Digest() is not called from concurrent tasks: it is a sync.OnceValues and parking inside it would block the others non-durably",
+            "Digest() is not called from concurrent SCHEDULED tasks (parking inside a sync.OnceValues would block the others non-durably); concurrent callers run freely in a phase of their own",
             "b5 and the legacy b4 digest both have an independent reference; input-universal clauses are sampled as workload, the deciding dimensions are backend, enumeration order, read faults and stored corruption",
         ],
         "probes_expected": {"quick": ["walk-permuted-nontrivially", "digest-failed-under-fault", "mutation-changed-digest", "mutation-left-digest", "cache-backend-verified", "dependency-change-propagated"],
